@@ -77,6 +77,7 @@ MUTANTS = [
     ('N12', P + 'subsequence/localconcurrences.py', 'def _reset_wp_mask', '            wp.data[used] = -wp.data[used]\n', '', [('C18', 'R-DUAL')]),
     ('N13', P + 'alignment.py', 'def make_substitution_fn', '    _unwrap.gap = gap\n', '', [('C17', 'R-TAB')]),
     ('N14', P + 'dp.py', 'def dp(', 'last_under_max_dist == -1 and c > 0:', 'last_under_max_dist == -1:', [('C17', 'R-PRUNE')]),
+    ('N16', C + 'dd_dtw.c', 'idx_t dtw_settings_wps_width(', '    DTWWps p = dtw_wps_parts(l1, l2, settings);\n    return p.width;', '    DTWWps p = dtw_wps_parts(l1, l2, settings);\n#ifdef NDEBUG\n    p.width = p.width - 1;\n#endif\n    return p.width;', [('C08', 'R-CFG'), ('C02', 'R-CFG')]),
     ('N15', P + 'similarity.py', 'def squash', 'Xz = 1 - np.exp(x0 / r)', 'Xz = 1 - np.exp(-x0 / r)', [('C19', 'R-DUAL')]),
 ]
 
